@@ -86,7 +86,7 @@ def _multires(draw):
     spec = draw(gp.multires_case())
     n = len(spec["graph"]["nodes"])
     ne = len(spec["graph"]["edges"])
-    spec["transform"] = {"idmap": draw(st.lists(st.integers(0, 40), min_size=n, max_size=n, unique=True)),
+    spec["transform"] = {"idmap": draw(st.lists(st.integers(0, max(40, 2 * n)), min_size=n, max_size=n, unique=True)),
                          "node_order": list(draw(st.permutations(range(n)))),
                          "edge_order": list(draw(st.permutations(range(ne)))),
                          "edge_flip": [draw(st.booleans()) for _ in range(ne)]}
